@@ -1,6 +1,7 @@
 package cluster
 
 import (
+	"bytes"
 	"crypto/ed25519"
 	"encoding/base64"
 	"encoding/json"
@@ -374,7 +375,23 @@ func runC18(w *World, tier string) (bool, interface{}) {
 				log := relabelledLog(w, m.DkgRoundID, id)
 				var env storage.Message
 				how := ""
-				switch w.Tape.Choose(3, "reinitHow") {
+				switch w.Tape.Choose(4, "reinitHow") {
+				case 3:
+					// a log that never opens the round it names (the opening proposal is missing):
+					// broadcast signatures and the round's other messages for a round that does
+					// not exist. Such a reinitialisation is refused - and leaves nothing behind
+					var rest []storage.Message
+					entry := []map[string]interface{}{{"File": "x", "BatchID": "some-batch", "MessageID": "some-msg", "SrcPayload": []byte("p"), "Signature": bytes.Repeat([]byte{7}, 96), "Username": w.Nodes[by].Name, "DKGRoundID": id}}
+					sr := storage.Message{DkgRoundID: id, Event: "signature_reconstructed", SenderAddr: w.Nodes[by].Name}
+					sr.Data, _ = json.Marshal(entry)
+					rest = append(rest, sr)
+					for _, e := range log {
+						if e.Event != "event_sig_proposal_init" {
+							rest = append(rest, e)
+						}
+					}
+					env = reinitEnvelope(w, by, id, thr, parts, rest)
+					how = "reinit-log-without-its-opening-proposal"
 				case 0:
 					x, ok := mutateStructural(w, m, by, kind)
 					if !ok || kind == "unknown-round" {
